@@ -61,7 +61,19 @@ func (p Polygon) op(p2 Polygonal, op polyclip.Op) Polygon {
 	for _, pp2x := range p2.Polygons() {
 		pp2 = append(pp2, pp2x.toPolyClip()...)
 	}
-	return polyClipToPolygon(pp.Construct(op, pp2))
+	return polyClipToPolygon(pp.Construct(xorOp(op, pp, pp2), pp2))
+}
+
+// xorOp returns the operation to hand to the clipper for operation op on
+// pp and pp2. When one operand is empty or the bounding boxes of the
+// operands do not overlap the clipper takes a shortcut that returns nothing
+// for XOR, but the symmetric difference of disjoint regions is their union.
+func xorOp(op polyclip.Op, pp, pp2 polyclip.Polygon) polyclip.Op {
+	if op == polyclip.XOR && (len(pp) == 0 || len(pp2) == 0 ||
+		!pp.BoundingBox().Overlaps(pp2.BoundingBox())) {
+		return polyclip.UNION
+	}
+	return op
 }
 
 func (p Polygon) toPolyClip() polyclip.Polygon {
